@@ -108,10 +108,17 @@ CHECKS = {
              'assignment is inserted after docstring / from __future__ statements only and preserves the order of all other statements; '
              'an alias name differs from the final name of every binding whose scope it shares (no_new_clash); an un-hoisted literal '
              'introduces no name. Tie: placement model compared with the namespace the real place_bindings chose; assigner correspondence. '
-             'Collection rules (no hoisting from patterns, __slots__, f-string text, docstring position), single assignment and strict '
-             'value identity are decided by the alpha-equivalence oracle on literal templates x 11 literal kinds and generated programs.',
-        note='PARTIAL: the HoistLiterals visitor (which literals are collected, the HoistedValue key) is not modelled in Lean.',
-        technique='Lean 4 proof (prefix/dominance and insertion lemmas, assigner invariant) + correspondence + alpha-equivalence oracle',
+             'The collecting traversal of HoistLiterals is modelled over the whole AST (PMV.HoistCollect.collect) with an exact '
+             'specification (collected_exactly_outside_exclusions: what is collected is exactly every None / True / False / string / bytes '
+             'occurrence of the module in which every match pattern, every string statement and every assignment to __slots__ in a class '
+             'namespace has been erased, at any depth; collected_are_hoistable: numbers and ... never); tie: the model against the sequence '
+             'of values the real traversal hands to get_binding (observed from outside) on templates, directed position programs and '
+             'generated programs, and the references of the hoisted bindings are exactly the collected nodes. '
+             'Single assignment and strict value identity are decided by the alpha-equivalence oracle on literal templates x 11 literal '
+             'kinds and generated programs.',
+        note='PARTIAL: the literal text of f-strings is not an expression of the model AST (the correspondence settles that the real traversal '
+             'skips it); the HoistedValue key (value identity) and the replacement step rename() are covered by the oracle, not modelled.',
+        technique='Lean 4 proof (exact specification of the collecting traversal, prefix/dominance and insertion lemmas, assigner invariant) + correspondence + alpha-equivalence oracle',
         ref='§6 C06'),
     'C10': dict(
         text='Lean theorems: applyPreserve (model of allow_rename_locals/globals) pins every listed binding, and a pinned binding is never '
@@ -136,13 +143,15 @@ CHECKS = {
              'correspondence of C03; the freeze model against the real functions on the node / namespace / binding trees of generated programs. '
              'The name part of taint detection is modelled on the resolver model of C03 (tainted exactly when a lookup of exec / eval / locals / '
              'globals / vars finds no binding on Python\'s lookup path; tainted_by_names_iff) and compared with the real module.tainted over the '
-             'lookups resolve_names makes. End to end, taint detection is decided by an oracle on the real code: trigger x position x '
+             'lookups resolve_names makes. The syntactic sources are modelled too (PMV.TaintSyntax): tainted_by_imports_iff (an import alias * or '
+             'with root module timeit in any statement at any depth), only_declared_iff / declared_trigger_taints (the only-declared rule), compared '
+             'with module.tainted after bind_names and with is_only_declared on every module binding. End to end, taint detection is decided by an oracle on the real code: trigger x position x '
              'program enumeration, the output tree must be identical to the input tree; a control group with shadowed trigger names '
              'must still be renamed.',
-        note='PARTIAL: the syntactic taint sources (star imports, timeit, the only-declared rule) are read by the harness, not modelled; a bound '
+        note='PARTIAL: that minify() combines the three modelled taint sources (names, imports, declarations) as a disjunction is read off the generated pipeline table and the oracle, not a theorem about one model; a bound '
              'trigger name that is the builtin at run time (F29a-d) escapes any static rule. Trusted: extract_pipeline (scrapes minify()), tools/taint_corr.py, '
              'the oracle in tools/props/c09.py.',
-        technique='Lean 4 proof (decide on the generated pipeline table + pinned-bindings theorem) + real-code identity oracle over trigger/position enumeration',
+        technique='Lean 4 proof (decide on the generated pipeline table, pinned-bindings theorem, freeze traversal, iff-specifications of the three taint sources) + correspondence + real-code identity oracle over trigger/position enumeration',
         ref='§6 C09'),
     'C03': dict(
         text='Lean theorems on a model of NameAssigner (reservation scopes, cost model, generator table, the must-rename rule): for every '
